@@ -38,7 +38,7 @@ register(fn_contract(
                 ensures={"decodes": "result == (spec.ec.sec1_x(pubkey_), spec.ec.sec1_y(pubkey_))",
                          "on_curve": "spec.ec.on_curve(result[0], result[1])"}),
            Case("rejected", when="otherwise", raises=(AssertionError, ValueError))],
-    returns="point", options={"native_gen": _pk, "feas_ms": 1500, "nla": False, "lemmas": ["pow_zero", "no_two_torsion"],
+    returns="point", options={"native_gen": _pk, "feas_ms": 1500, "nla": False, "refine_len": True, "lemmas": ["pow_zero", "no_two_torsion"],
                               "assumptions": ["A-prime-p; lemmas pow_eq_zero_field and no_two_torsion (lean/Field.lean)"]},
     witnesses=[{"pubkey_": bytes.fromhex("0279BE667EF9DCBBAC55A06295CE870B07029BFCDB2DCE28D959F2815B16F81798")},
                {"pubkey_": bytes.fromhex("0279BE667EF9DCBBAC55A06295CE870B07029BFCDB2DCE28D959F2815B16F81798") + b"\xaa" * 32},
